@@ -129,12 +129,21 @@ pub const SUB_KINDS: &[&str] = &[
     "distribution", "stargate", "ibc", "gov", "custom",
 ];
 
+/// Reply ids / gas limits with their boundary values (0 is the id sylvia itself gives the
+/// first reply handler; u64::MAX the largest).
+fn id_strategy() -> BoxedStrategy<u64> {
+    u64_edges()
+}
+fn gas_strategy() -> BoxedStrategy<Option<u64>> {
+    proptest::option::of(prop_oneof![1 => Just(0u64), 1 => Just(u64::MAX), 4 => any::<u64>()]).boxed()
+}
+
 pub fn sub_spec_strategy(custom_weight: u32) -> BoxedStrategy<SubSpec> {
     let n = SUB_KINDS.len() - 1;
     (
         prop_oneof![20 => (0..n).prop_map(|i| SUB_KINDS[i].to_string()), custom_weight => Just("custom".to_string())],
-        any::<u64>(),
-        proptest::option::of(any::<u64>()),
+        id_strategy(),
+        gas_strategy(),
         0u8..4,
         proptest::collection::vec(any::<u8>(), 0..10),
         any::<u32>(),
@@ -158,7 +167,7 @@ pub fn resp_spec_strategy(custom_weight: u32) -> BoxedStrategy<crate::echo::Resp
 /// Responses without custom-typed messages (every part can return them, bridged or not).
 pub fn resp_spec_strategy_plain() -> BoxedStrategy<crate::echo::RespSpec> {
     let n = SUB_KINDS.len() - 1;
-    let sub = ((0..n).prop_map(|i| SUB_KINDS[i].to_string()), any::<u64>(), proptest::option::of(any::<u64>()), 0u8..4, proptest::collection::vec(any::<u8>(), 0..10), any::<u32>(), "[a-z0-9/.]{1,12}")
+    let sub = ((0..n).prop_map(|i| SUB_KINDS[i].to_string()), id_strategy(), gas_strategy(), 0u8..4, proptest::collection::vec(any::<u8>(), 0..10), any::<u32>(), "[a-z0-9/.]{1,12}")
         .prop_map(|(kind, id, gas_limit, reply_on, payload, n, text)| SubSpec { kind, id, gas_limit, reply_on, payload, n, text });
     (
         proptest::collection::vec(sub, 0..4),
